@@ -19,7 +19,7 @@
 -/
 import FcModel.Mesh
 import FcGen.Tables
-namespace Fc
+namespace Fc.C07
 
 /-! ### enumeration order -/
 
@@ -245,4 +245,4 @@ def smallDyadic (U : Nat) (ext : List Nat) (origin : List Int) (basis : List (Li
   ext.all (· ≤ 256) && origin.all (dyadicWithin U 12 10) && spacing.all (dyadicWithin U 12 10) &&
   basis.all (·.all (dyadicWithin U 12 2))
 
-end Fc
+end Fc.C07
